@@ -22,9 +22,14 @@ EXTENDS Integers, Sequences, FiniteSets, TLC
 
 CONSTANTS Procs,      \* process ids (integers 1..n)
           Keys,       \* keys
-          KeyPlans    \* set of functions Procs -> Seq(Keys): the keys each process Gets, in order
+          KeyPlans,   \* set of functions Procs -> Seq(Keys): the keys each process Gets, in order
+          ZeroKeySets \* set of subsets of Keys: for which keys the constructor returns the ZERO value of V
 
 VARIABLES plan,       \* the key plan of this behaviour (chosen in Init)
+          zk,         \* the keys whose constructed value is the zero value of V (chosen in Init):
+                      \* a nil pointer / nil interface / 0 is a perfectly legal result of the
+                      \* constructor, so "has been constructed" (ncons, the closed channel) is
+                      \* a fact of its own and must never be inferred from the value
           calls,      \* calls[p]: number of Gets p has started
           pc,         \* pc[p]: control point of p inside Get
           map,        \* c.loaders: map[k] = loader stored under k, 0 = absent
@@ -39,11 +44,12 @@ VARIABLES plan,       \* the key plan of this behaviour (chosen in Init)
           nextv,      \* next fresh value (the constructor returns a fresh object per call)
           rets        \* rets[p]: sequence of values returned by p's Gets
 
-vars == <<plan, calls, pc, map, chan, cached, lkey, ldr, tmp, val, ncons, conval, nextv, rets>>
+vars == <<plan, zk, calls, pc, map, chan, cached, lkey, ldr, tmp, val, ncons, conval, nextv, rets>>
 
 Zero == 0
 
 Init == /\ plan \in KeyPlans
+        /\ zk \in ZeroKeySets
         /\ calls = [p \in Procs |-> 0]
         /\ pc = [p \in Procs |-> "idle"]
         /\ map = [k \in Keys |-> 0]
@@ -64,19 +70,19 @@ Start(p) ==
     /\ pc[p] = "idle" /\ calls[p] < Len(plan[p])
     /\ calls' = [calls EXCEPT ![p] = @ + 1]
     /\ Goto(p, "load")
-    /\ UNCHANGED <<plan, map, chan, cached, lkey, ldr, tmp, val, ncons, conval, nextv, rets>>
+    /\ UNCHANGED <<plan, zk, map, chan, cached, lkey, ldr, tmp, val, ncons, conval, nextv, rets>>
 
 (* Step 1, the fast track. *)
 LoadHit(p) ==
     /\ pc[p] = "load" /\ map[Key(p)] # 0
     /\ ldr' = [ldr EXCEPT ![p] = map[Key(p)]]
     /\ Goto(p, "call")
-    /\ UNCHANGED <<plan, calls, map, chan, cached, lkey, tmp, val, ncons, conval, nextv, rets>>
+    /\ UNCHANGED <<plan, zk, calls, map, chan, cached, lkey, tmp, val, ncons, conval, nextv, rets>>
 
 LoadMiss(p) ==
     /\ pc[p] = "load" /\ map[Key(p)] = 0
     /\ Goto(p, "miss")
-    /\ UNCHANGED <<plan, calls, map, chan, cached, lkey, ldr, tmp, val, ncons, conval, nextv, rets>>
+    /\ UNCHANGED <<plan, zk, calls, map, chan, cached, lkey, ldr, tmp, val, ncons, conval, nextv, rets>>
 
 (* Step 2.  The process allocates its own channel (holding the token) and     *)
 (* closure; LoadOrStore keeps it only if the key is still absent, otherwise    *)
@@ -94,7 +100,7 @@ LoadOrStore(p) ==
          ELSE /\ ldr' = [ldr EXCEPT ![p] = map[k]]
               /\ UNCHANGED <<chan, cached, lkey, map>>
     /\ Goto(p, "call")
-    /\ UNCHANGED <<plan, calls, tmp, val, ncons, conval, nextv, rets>>
+    /\ UNCHANGED <<plan, zk, calls, tmp, val, ncons, conval, nextv, rets>>
 
 (* The loader call.  `_, ok := <-done` has three outcomes. *)
 HasToken(l)  == chan[l] = "token"
@@ -105,48 +111,50 @@ RecvToken(p) ==
     /\ pc[p] = "call" /\ HasToken(ldr[p])
     /\ chan' = [chan EXCEPT ![ldr[p]] = "empty"]
     /\ Goto(p, "construct")
-    /\ UNCHANGED <<plan, calls, map, cached, lkey, ldr, tmp, val, ncons, conval, nextv, rets>>
+    /\ UNCHANGED <<plan, zk, calls, map, cached, lkey, ldr, tmp, val, ncons, conval, nextv, rets>>
 
 RecvClosed(p) ==
     /\ pc[p] = "call" /\ IsClosed(ldr[p])
     /\ Goto(p, "read")
-    /\ UNCHANGED <<plan, calls, map, chan, cached, lkey, ldr, tmp, val, ncons, conval, nextv, rets>>
+    /\ UNCHANGED <<plan, zk, calls, map, chan, cached, lkey, ldr, tmp, val, ncons, conval, nextv, rets>>
 
 (* The user's constructor runs (c.new(key) with the key the loader captured)   *)
-(* and returns a fresh object.  Schedule replay parks goroutines here.         *)
+(* and returns a fresh object -- or, for the keys in zk, the zero value of V.   *)
+(* Schedule replay parks goroutines here.                                      *)
 Construct(p) ==
     /\ pc[p] = "construct"
-    /\ LET k == lkey[ldr[p]] IN
+    /\ LET k == lkey[ldr[p]]
+           v == IF k \in zk THEN Zero ELSE nextv IN
        /\ ncons' = [ncons EXCEPT ![k] = @ + 1]
-       /\ conval' = [conval EXCEPT ![k] = @ \cup {nextv}]
-    /\ tmp' = [tmp EXCEPT ![p] = nextv]
+       /\ conval' = [conval EXCEPT ![k] = @ \cup {v}]
+       /\ tmp' = [tmp EXCEPT ![p] = v]
     /\ nextv' = nextv + 1
     /\ Goto(p, "assign")
-    /\ UNCHANGED <<plan, calls, map, chan, cached, lkey, ldr, val, rets>>
+    /\ UNCHANGED <<plan, zk, calls, map, chan, cached, lkey, ldr, val, rets>>
 
 StoreCached(p) ==
     /\ pc[p] = "assign"
     /\ cached' = [cached EXCEPT ![ldr[p]] = tmp[p]]
     /\ Goto(p, "close")
-    /\ UNCHANGED <<plan, calls, map, chan, lkey, ldr, tmp, val, ncons, conval, nextv, rets>>
+    /\ UNCHANGED <<plan, zk, calls, map, chan, lkey, ldr, tmp, val, ncons, conval, nextv, rets>>
 
 Close(p) ==
     /\ pc[p] = "close"
     /\ chan' = [chan EXCEPT ![ldr[p]] = "closed"]
     /\ Goto(p, "read")
-    /\ UNCHANGED <<plan, calls, map, cached, lkey, ldr, tmp, val, ncons, conval, nextv, rets>>
+    /\ UNCHANGED <<plan, zk, calls, map, cached, lkey, ldr, tmp, val, ncons, conval, nextv, rets>>
 
 ReadCached(p) ==
     /\ pc[p] = "read"
     /\ val' = [val EXCEPT ![p] = cached[ldr[p]]]
     /\ Goto(p, "ret")
-    /\ UNCHANGED <<plan, calls, map, chan, cached, lkey, ldr, tmp, ncons, conval, nextv, rets>>
+    /\ UNCHANGED <<plan, zk, calls, map, chan, cached, lkey, ldr, tmp, ncons, conval, nextv, rets>>
 
 Return(p) ==
     /\ pc[p] = "ret"
     /\ rets' = [rets EXCEPT ![p] = Append(@, val[p])]
     /\ Goto(p, "idle")
-    /\ UNCHANGED <<plan, calls, map, chan, cached, lkey, ldr, tmp, val, ncons, conval, nextv>>
+    /\ UNCHANGED <<plan, zk, calls, map, chan, cached, lkey, ldr, tmp, val, ncons, conval, nextv>>
 
 Step(p) == \/ Start(p) \/ LoadHit(p) \/ LoadMiss(p) \/ LoadOrStore(p)
            \/ RecvToken(p) \/ RecvClosed(p) \/ Construct(p) \/ StoreCached(p)
@@ -167,7 +175,7 @@ AllFinished == \A p \in Procs : Finished(p)
 Holder(l) == {p \in Procs : pc[p] \in {"construct", "assign", "close"} /\ ldr[p] = l}
 
 TypeOK ==
-    /\ plan \in KeyPlans
+    /\ plan \in KeyPlans /\ zk \in ZeroKeySets
     /\ \A p \in Procs : calls[p] \in 0..Len(plan[p])
     /\ \A p \in Procs : pc[p] \in {"idle", "load", "miss", "call", "construct", "assign", "close", "read", "ret"}
     /\ \A k \in Keys : map[k] \in 0..Len(chan)
@@ -181,10 +189,11 @@ OnceOnly == \A k \in Keys : ncons[k] <= 1
 (* ... and exactly once as soon as some Get(k) has returned. *)
 ExactlyOnce == \A p \in Procs : \A i \in 1..Len(rets[p]) : ncons[plan[p][i]] = 1
 
-(* C17, clause 2: every caller receives that single result (never the zero     *)
-(* value, never another construction).                                         *)
+(* C17, clause 2: every caller receives that single result: the zero value     *)
+(* exactly for the keys whose constructor returned it, never the result of     *)
+(* another construction.                                                       *)
 SameResult == \A p \in Procs : \A i \in 1..Len(rets[p]) :
-                  /\ rets[p][i] # Zero
+                  /\ (rets[p][i] = Zero) <=> (plan[p][i] \in zk)
                   /\ conval[plan[p][i]] = {rets[p][i]}
 
 (* C17, clause 3: a slow construction of one key does not block Get of         *)
@@ -209,8 +218,9 @@ TokenConservation ==
     \A l \in Loaders :
         Cardinality(Holder(l)) + (IF HasToken(l) THEN 1 ELSE 0) + (IF IsClosed(l) THEN 1 ELSE 0) = 1
 
+(* "constructed" is the closed channel together with ncons = 1, not cached # Zero *)
 ClosedImpliesCached ==
-    \A l \in Loaders : IsClosed(l) => cached[l] # Zero /\ conval[lkey[l]] = {cached[l]}
+    \A l \in Loaders : IsClosed(l) => ncons[lkey[l]] = 1 /\ conval[lkey[l]] = {cached[l]}
 
 OneLoaderPerKey ==
     /\ \A l1, l2 \in Loaders : lkey[l1] = lkey[l2] => l1 = l2
